@@ -45,7 +45,8 @@ Lemma hash_core h sc :
    Ok (ct1 ++ ct2 ++ ct3)) = Ok (desl h sc).
 Proof.
   intros Hh Hs. list16 h Hh.
-  cbn -[des_block parity_adjust des7_encrypt]. step_des Hs. reflexivity.
+  cbn -[des_block parity_adjust des7_encrypt]. step_des Hs.
+  unfold desl. cbn [firstn skipn app]. reflexivity.
 Qed.
 
 Definition hash_outcome (nthash password sc : list N) : R (list N) :=
@@ -89,7 +90,7 @@ Proof.
   intros Hh Hs. list16 h Hh.
   cbn -[des_block parity_adjust des7_encrypt].
   rewrite !lenN_pa by reflexivity. cbn [N.eqb Pos.eqb negb orb].
-  step_des Hs. reflexivity.
+  step_des Hs. unfold desl. cbn [firstn skipn app]. reflexivity.
 Qed.
 
 Theorem nt_response_char nthash sc : nt_response nthash sc = nt_response_outcome nthash sc.
@@ -125,7 +126,9 @@ Theorem v1_agree nthash password sc :
   ntlmv1_hash nthash password sc = Ok (desl nthash sc) /\ nt_response nthash sc = Ok (desl nthash sc).
 Proof.
   intros Hh Hs. rewrite ntlmv1_hash_char, nt_response_char. unfold hash_outcome, nt_response_outcome.
-  rewrite (lenN_eq _ _ Hh), (lenN_eq _ _ Hs). split; reflexivity.
+  assert (E1 : lenN nthash = 16) by (unfold lenN; rewrite Hh; reflexivity).
+  assert (E2 : lenN sc = 8) by (unfold lenN; rewrite Hs; reflexivity).
+  rewrite E1, E2. cbn [N.eqb Pos.eqb andb negb]. rewrite E1. split; reflexivity.
 Qed.
 
 (* through NewNTLMv1WithPassword: NT hash = NTOWFv1(password) *)
